@@ -99,7 +99,7 @@ func genC08(t *rapid.T, tier string) (*World, any) {
 	}
 	// cross-file probes
 	sort.Strings(targets)
-	p.Probe = pick(t, []string{"none", "none", "stash-writer-reader", "unclosed-block", "definition-elsewhere", "flags-elsewhere", "prefix-elsewhere", "exclude-under-other-definitions"}, "probe")
+	p.Probe = pick(t, []string{"none", "none", "stash-writer-reader", "unclosed-block", "definition-elsewhere", "flags-elsewhere", "prefix-elsewhere", "exclude-under-other-definitions", "file-format-rejects"}, "probe")
 	a, b := targets[0], targets[1]
 	if drawBool(t, "probe-swap") {
 		a, b = b, a
@@ -121,6 +121,9 @@ func genC08(t *rapid.T, tier string) (*World, any) {
 		w.Put("crs/regex-assembly/exclude/no-jump.ra", "jump{{tail}}\n")
 		progs[a] = append(progs[a], "##!> include-except words-ing no-jump")
 		progs[b] = append(progs[b], "##!> include-except words-er no-jump")
+	case "file-format-rejects":
+		// a file that format refuses (stray end marker): --all must still treat every other file as the single invocations do
+		progs[a] = append(progs[a], "##!<")
 	case "flags-elsewhere":
 		progs[a] = append([]string{"##!+ i"}, lowerAll(progs[a])...)
 	case "prefix-elsewhere":
